@@ -34,6 +34,9 @@ type c19Proto struct {
 	count   []int32 // invocations per job id
 	ended   int32
 	noReply bool // UDP: no response datagram
+	gateA   chan struct{} // tcp-shutdown: the requests with id <= nA (they occupy the workers) wait on this gate, the others on gate
+	nA      int
+	parsed  int32 // complete packets the receive loops have cut out of their streams (each is handed to the pool right away)
 }
 
 func (p *c19Proto) Invoke(ctx context.Context, pkg []byte) []byte {
@@ -69,7 +72,11 @@ func (p *c19Proto) Invoke(ctx context.Context, pkg []byte) []byte {
 		time.Sleep(2 * time.Millisecond)
 	}
 	if p.gated {
-		<-p.gate
+		if p.gateA != nil && id <= p.nA {
+			<-p.gateA
+		} else {
+			<-p.gate
+		}
 	}
 	atomic.AddInt32(&p.running, -1)
 	p.lg.add(c19KEnd, id)
@@ -79,7 +86,13 @@ func (p *c19Proto) Invoke(ctx context.Context, pkg []byte) []byte {
 	}
 	return []byte{0, 0, 0, 4}
 }
-func (p *c19Proto) ParsePackage(b []byte) (int, int)   { return protocol.TarsRequest(b) }
+func (p *c19Proto) ParsePackage(b []byte) (int, int) {
+	n, st := protocol.TarsRequest(b)
+	if st == protocol.PackageFull {
+		atomic.AddInt32(&p.parsed, 1)
+	}
+	return n, st
+}
 func (p *c19Proto) InvokeTimeout(pkg []byte) []byte    { return []byte{0, 0, 0, 4} }
 func (p *c19Proto) GetCloseMsg() []byte                { return []byte{0, 0, 0, 4} }
 func (p *c19Proto) DoClose(ctx context.Context)        {}
@@ -96,6 +109,9 @@ func c19RunTCP(sc c19Scenario) c19ChildOut {
 	gated := sc.Mode == "tcp-saturated"
 	if gated {
 		sc.Jobs = (sc.W+1+sc.Q)/sc.Subs + 3 // more than workers + dispatcher + queue + one blocked receive loop per connection can absorb
+	}
+	if sc.Mode == "tcp-shutdown" {
+		return c19RunTCPShutdown(sc)
 	}
 	total := sc.Subs * sc.Jobs
 	lg := &c19Log{ev: make([]int64, 4*total+64)}
@@ -248,5 +264,177 @@ func c19RunTCP(sc c19Scenario) c19ChildOut {
 			}
 		}
 	}
+	return out
+}
+
+// c19RunTCPShutdown: graceful shutdown of a loaded server. Connection A's W requests occupy all workers (gate A), the
+// connections B, C, ... have handed further requests to the pool, which wait in its JobQueue (QueueCap is large enough for
+// all of them). Shutdown is called directly with a long context; gate A opens, later gate B. Every request that a receive
+// loop handed to the pool before the shutdown has to be executed exactly once before the pool's goroutines are gone
+// (Handle releases the pool only after every receive loop has returned, and a receive loop returns only when its requests
+// have been handled).
+func c19RunTCPShutdown(sc c19Scenario) c19ChildOut {
+	var out c19ChildOut
+	var mu sync.Mutex
+	fail := func(sig, desc string) {
+		mu.Lock()
+		out.Fails = append(out.Fails, Failure{Sig: sig, Desc: desc})
+		mu.Unlock()
+	}
+	nB := sc.Subs // connections with queued requests
+	if nB < 1 {
+		nB = 1
+	}
+	per := sc.Jobs
+	if per < 5 {
+		per = 5
+	}
+	total := sc.W + nB*per
+	if sc.Q < nB*per { // everything handed over must fit: dispatcher's hand + queue
+		sc.Q = nB * per
+	}
+	lg := &c19Log{ev: make([]int64, 4*total+64)}
+	p := &c19Proto{lg: lg, gate: make(chan struct{}), gateA: make(chan struct{}), nA: sc.W, gated: true, durOf: make([]int, total+1), count: make([]int32, total+1)}
+	var phase atomic.Value
+	phase.Store("listen")
+	done := make(chan struct{})
+	go func() {
+		defer close(done)
+		var once sync.Once
+		openAll := func() { once.Do(func() { close(p.gateA); close(p.gate) }) }
+		defer openAll()
+		var ts *transport.TarsServer
+		var addr string
+		for try := 0; ; try++ {
+			l, err := net.Listen("tcp", "127.0.0.1:0")
+			if err != nil {
+				out.Note = "skipped: no loopback listener: " + err.Error()
+				return
+			}
+			addr = l.Addr().String()
+			l.Close()
+			ts = transport.NewTarsServer(p, &transport.TarsServerConf{Proto: "tcp", Address: addr, MaxInvoke: int32(sc.W), QueueCap: sc.Q,
+				AcceptTimeout: 50 * time.Millisecond, ReadTimeout: 100 * time.Millisecond, IdleTimeout: time.Hour})
+			if err := ts.Listen(); err == nil {
+				break
+			} else if try >= 5 {
+				out.Note = "skipped: cannot listen: " + err.Error()
+				return
+			}
+		}
+		served := make(chan struct{})
+		go func() { ts.Serve(); close(served) }()
+		wait := func(cond func() bool) bool {
+			t0 := time.Now()
+			for !cond() {
+				if time.Since(t0) > c19Slack {
+					return false
+				}
+				time.Sleep(200 * time.Microsecond)
+			}
+			return true
+		}
+		send := func(c net.Conn, from, n int) bool {
+			for i := 0; i < n; i++ {
+				id := from + i
+				pkt := make([]byte, 12)
+				binary.BigEndian.PutUint32(pkt[0:4], 12)
+				binary.BigEndian.PutUint32(pkt[4:8], uint32(id))
+				lg.add(c19KSubCall, id)
+				c.SetWriteDeadline(time.Now().Add(c19Slack))
+				if _, err := c.Write(pkt); err != nil {
+					fail("C19/hang/tcp-write", "writing a request failed: "+err.Error())
+					return false
+				}
+			}
+			return true
+		}
+		dial := func() net.Conn {
+			c, err := net.DialTimeout("tcp", addr, c19Slack)
+			if err != nil {
+				fail("C19/hang/tcp-dial", "cannot connect to the server: "+err.Error())
+				return nil
+			}
+			go io.Copy(io.Discard, c)
+			return c
+		}
+		// connection A: its W requests occupy every worker
+		phase.Store("occupy")
+		ca := dial()
+		if ca == nil {
+			return
+		}
+		defer ca.Close()
+		if !send(ca, 1, sc.W) {
+			return
+		}
+		if !wait(func() bool { return atomic.LoadInt32(&p.running) >= int32(sc.W) }) {
+			fail("C19/hang/saturate", fmt.Sprintf("only %d of W=%d workers picked up a request within %v", atomic.LoadInt32(&p.running), sc.W, c19Slack))
+			return
+		}
+		// connections B, C, ...: their requests are handed to the pool and wait there
+		phase.Store("queue")
+		for k := 0; k < nB; k++ {
+			c := dial()
+			if c == nil {
+				return
+			}
+			defer c.Close()
+			if !send(c, sc.W+1+k*per, per) {
+				return
+			}
+		}
+		if !wait(func() bool { return atomic.LoadInt32(&p.parsed) >= int32(total) }) {
+			fail("C19/hang/tcp-send", fmt.Sprintf("the server read only %d of %d requests within %v", atomic.LoadInt32(&p.parsed), total, c19Slack))
+			return
+		}
+		time.Sleep(20 * time.Millisecond) // the send into the (roomy) JobQueue follows the parse immediately
+		out.Complete = true               // from here on every one of the [total] requests is in the pool
+		// graceful shutdown
+		phase.Store("shutdown")
+		lg.add(c19KRelCall, 0)
+		sctx, cancel := context.WithTimeout(context.Background(), 6*c19Slack)
+		defer cancel()
+		go ts.Shutdown(sctx)
+		// the receive loops see the shutdown within 100 ms and then poll their in-flight counter every 500 ms: give the loops of
+		// B, C, ... a full poll while all their requests are still queued, then let A's requests finish and give A's loop a poll
+		// while the first queued request occupies the worker again (gate B still closed)
+		time.Sleep(900 * time.Millisecond)
+		close(p.gateA)
+		time.Sleep(800 * time.Millisecond)
+		phase.Store("drain")
+		once.Do(func() { close(p.gate) }) // the queued requests may run now
+		select {
+		case <-served:
+		case <-time.After(c19Slack):
+			fail("C19/hang/release-return-on-idle-pool", fmt.Sprintf("Serve did not return within %v after Shutdown although every request could finish (W=%d Q=%d, %d connections)", c19Slack, sc.W, sc.Q, nB+1))
+			return
+		}
+		r := atomic.LoadInt32(&p.running)
+		lg.add(c19KRelRet, 0)
+		if r != 0 {
+			fail("C19/release-returned-while-running", fmt.Sprintf("the pool was released while %d request(s) were being handled", r))
+		}
+		phase.Store("workers-stopped")
+		if !wait(func() bool { return c19PoolGoroutines() == 0 }) {
+			fail("C19/hang/worker-not-stopped", fmt.Sprintf("%d goroutine(s) of the pool still exist %v after the server released it (W=%d Q=%d mode=%s)", c19PoolGoroutines(), c19Slack, sc.W, sc.Q, sc.Mode))
+		}
+		// the pool is gone: whatever was handed to it and has not run never will
+		if e := atomic.LoadInt32(&p.ended); e < int32(total) {
+			fail("C19/submitted-job-never-run", fmt.Sprintf("graceful shutdown: %d of the %d requests handed to the pool before Shutdown were never executed — the pool was released while they were queued (W=%d Q=%d, %d connections with %d queued requests each)", int32(total)-e, total, sc.W, sc.Q, nB, per))
+		}
+		time.Sleep(3 * time.Millisecond)
+	}()
+	select {
+	case <-done:
+	case <-time.After(8 * c19Slack):
+		fail("C19/hang/scenario", fmt.Sprintf("scenario stuck in phase %v", phase.Load()))
+	}
+	out.Trace = lg.snapshot()
+	out.HighWater = int(atomic.LoadInt32(&p.high))
+	if out.Note == "" {
+		out.Note = fmt.Sprint(phase.Load())
+	}
+	out.Fails = append(out.Fails, c19Monitor(sc, out.Trace, out.Complete, out.HighWater)...)
 	return out
 }
